@@ -72,6 +72,45 @@ VERUS = [dict(
              contract="""    requires num_iv(*self), num_iv(*other),
     ensures r is Ok, bool_iv(r->Ok_0),
         forall|a: int, b: int| #[trigger] pair_in(*other, *self, b, a) ==> has(iv_mask(r->Ok_0), tvb(a <= b)),   // a in self, b in other"""),
+        dict(file=FI, path=["fn max_of_bounds"], ret="r",
+             edits=[dict(rule="R13", find="first >= second", replace="sv_le(*second, *first)"), dict(rule="R3", regex=r"\.clone\(\)", replace="", count=2),
+                    dict(rule="R3", find="first\n    } else {\n        second\n", replace="*first\n    } else {\n        *second\n")],
+             contract="""    requires first is Int64, second is Int64,
+    ensures r is Int64, (int_of(*first) is None && int_of(*second) is None) ==> int_of(r) is None,
+        // NULL means -inf here: the greater lower bound
+        int_of(*first) is Some && int_of(*second) is Some ==> int_of(r) == Some(if int_of(*first)->Some_0 >= int_of(*second)->Some_0 { int_of(*first)->Some_0 } else { int_of(*second)->Some_0 }),
+        int_of(*first) is Some && int_of(*second) is None ==> r == *first, int_of(*first) is None && int_of(*second) is Some ==> r == *second,"""),
+        dict(file=FI, path=["fn min_of_bounds"], ret="r",
+             edits=[dict(rule="R13", find="first <= second", replace="sv_le(*first, *second)"), dict(rule="R3", regex=r"\.clone\(\)", replace="", count=2),
+                    dict(rule="R3", find="first\n    } else {\n        second\n", replace="*first\n    } else {\n        *second\n")],
+             contract="""    requires first is Int64, second is Int64,
+    ensures r is Int64, (int_of(*first) is None && int_of(*second) is None) ==> int_of(r) is None,
+        int_of(*first) is Some && int_of(*second) is Some ==> int_of(r) == Some(if int_of(*first)->Some_0 <= int_of(*second)->Some_0 { int_of(*first)->Some_0 } else { int_of(*second)->Some_0 }),
+        int_of(*first) is Some && int_of(*second) is None ==> r == *first, int_of(*first) is None && int_of(*second) is Some ==> r == *second,"""),
+        dict(file=FI, path=[II, "fn intersect"], wrap=II, ret="r", edits=_GEN + [dict(rule="R13", regex=r"lhs\.lower > rhs\.upper", replace="sv_lt(rhs.upper, lhs.lower)", count="any"),
+                           dict(rule="R13", regex=r"lhs\.upper < rhs\.lower", replace="sv_lt(lhs.upper, rhs.lower)", count="any"),
+                           dict(rule="R13", regex=r"lhs\.lower <= rhs\.lower", replace="sv_le(lhs.lower, rhs.lower)", count="any"),
+                           dict(rule="R13", regex=r"lhs\.upper >= rhs\.upper", replace="sv_le(rhs.upper, lhs.upper)", count="any"),
+                           dict(rule="R13", regex=r"(lhs|rhs)_owned\.as_ref\(\)\.unwrap_or\((self|rhs)\)", replace=r"owned_or(&\1_owned, \2)", count=2),
+                           dict(rule="R3", regex=r"\.clone\(\)", replace="", count="any"),
+                           dict(rule="R5", regex=r"debug_assert!\((?:[^()]|\((?:[^()]|\([^()]*\))*\))*\);", replace="", count=1)],
+             contract="""    requires num_iv(*self), num_iv(*other),
+    ensures r is Ok,
+        // exact: a value lies in the intersection iff it lies in both intervals; None iff no value does
+        r->Ok_0 is None ==> forall|x: int| !(#[trigger] contains(*self, x) && contains(*other, x)),
+        r->Ok_0 is Some ==> num_iv(r->Ok_0->Some_0) && forall|x: int| #[trigger] contains(r->Ok_0->Some_0, x) <==> (contains(*self, x) && contains(*other, x)),"""),
+        dict(file=FI, path=[II, "fn union"], wrap=II, ret="r", edits=_GEN + [dict(rule="R13", regex=r"lhs\.lower > rhs\.upper", replace="sv_lt(rhs.upper, lhs.lower)", count="any"),
+                           dict(rule="R13", regex=r"lhs\.upper < rhs\.lower", replace="sv_lt(lhs.upper, rhs.lower)", count="any"),
+                           dict(rule="R13", regex=r"lhs\.lower <= rhs\.lower", replace="sv_le(lhs.lower, rhs.lower)", count="any"),
+                           dict(rule="R13", regex=r"lhs\.upper >= rhs\.upper", replace="sv_le(rhs.upper, lhs.upper)", count="any"),
+                           dict(rule="R13", regex=r"(lhs|rhs)_owned\.as_ref\(\)\.unwrap_or\((self|rhs)\)", replace=r"owned_or(&\1_owned, \2)", count=2),
+                           dict(rule="R3", regex=r"\.clone\(\)", replace="", count="any"),
+                           dict(rule="R5", regex=r"debug_assert!\((?:[^()]|\((?:[^()]|\([^()]*\))*\))*\);", replace="", count=1)],
+             contract="""    requires num_iv(*self), num_iv(*other),
+    ensures r is Ok, num_iv(r->Ok_0),
+        // sound hull: nothing of either interval is lost; and not wider than needed (each endpoint is an endpoint of an operand)
+        forall|x: int| (#[trigger] contains(*self, x) || contains(*other, x)) ==> contains(r->Ok_0, x),
+        (r->Ok_0.lower == self.lower || r->Ok_0.lower == other.lower) && (r->Ok_0.upper == self.upper || r->Ok_0.upper == other.upper),"""),
         dict(file=FI, path=[II, "fn and"], wrap=II, ret="r", edits=_GEN,
              contract="""    requires bool_iv(*self), bool_iv(*other),
     ensures r is Ok, bool_iv(r->Ok_0), exact2(|a: int, b: int| and3(a, b), iv_mask(*self), iv_mask(*other), iv_mask(r->Ok_0)),"""),
@@ -146,6 +185,10 @@ VERUS = [dict(
         dict(name="gt_eq_true_on_strict_greater_missing_equal", item="gt_eq", find="Ok(Self::FALSE)", replace="Ok(Self::TRUE)"),
         dict(name="lt_not_mirrored", item="lt", find="other.gt(self)", replace="self.gt(other)"),
         dict(name="gt_ignores_unbounded_upper", item="gt", find="if !(self.upper.is_null() || rhs.lower.is_null()) &&", replace="if !(rhs.lower.is_null()) &&"),
+        dict(name="intersect_lower_is_min", item="intersect", find="let lower = max_of_bounds(", replace="let lower = min_of_bounds("),
+        dict(name="intersect_touching_reported_empty", item="intersect", find="sv_lt(rhs.upper, lhs.lower)", replace="sv_le(rhs.upper, lhs.lower)"),
+        dict(name="union_takes_larger_lower", item="union", find="sv_le(lhs.lower, rhs.lower)", replace="sv_le(rhs.lower, lhs.lower)"),
+        dict(name="max_of_bounds_prefers_null", item="max_of_bounds", find="if !first.is_null() && (second.is_null() ||", replace="if first.is_null() || (second.is_null() ||"),
         dict(name="is_true_ignores_unknown", item="is_true", find="(true, false, false) => Ok(Self::TRUE),", replace="(true, false, _) => Ok(Self::TRUE),"),
         dict(name="is_unknown_inverted", item="is_unknown", find="(_, _, false) => Ok(Self::FALSE),", replace="(_, _, false) => Ok(Self::TRUE),"),
         dict(name="maybe_null_reported_not_null", item="is_true_false_unknown", find="?,\n                true,\n            ),", replace="?,\n                false,\n            ),"),
@@ -154,5 +197,5 @@ VERUS = [dict(
 TRUSTED = ["Kani 0.68 / CBMC 6.11 (IEEE-754 comparison semantics of CBMC's float theory)",
            "three_valued_logic: Verus+Z3; three-variant type model of DataType / ScalarValue (Boolean, Int64, Other), ScalarValue PartialOrd on non-NULL Int64 values behind assumed contracts sv_le / sv_lt (R13), re-attached derives (R16), Borrow<Self> parameters taken as &Self and reference patterns matched by value on the Copy model (R3), ASSUMED contract of Interval::contains_value for boolean values (prelude_logic.rs)"]
 ASSUMPTIONS = ["only the bit-level successor/predecessor is within reach; interval add/sub/mul/div, cp_solver and everything through ScalarValue/Arrow kernels and the fesetround FFI are not verified"]
-NOT_COVERED = ["numeric Interval::{add,sub,mul,div,intersect,union,gt,lt,...}", "cp_solver propagation", "alter_fp_rounding_mode (FFI fesetround)", "integer increment/decrement through ScalarValue"]
+NOT_COVERED = ["numeric Interval::{add,sub,mul,div,equal,...}, intervals of other data types than Int64 (the code is type-generic over ScalarValue; floats have NaN/rounding), operands of different data types (casts)", "cp_solver propagation", "alter_fp_rounding_mode (FFI fesetround)", "integer increment/decrement through ScalarValue"]
 EXPLANATION = "A successor that skipped a representable value would let a strict bound x > c remove a feasible value during constraint propagation; the harnesses prove, for every bit pattern, that no value is skipped."
